@@ -214,18 +214,35 @@ func r072(c *Ctx, rule string) {
 	c.guardedBy(rule, "PauseController", chF, lock, nil)
 	c.guardedBy(rule, "PauseController", failF, lock, map[string]string{"(*server.PauseController).UnmarshalJSON": "decode target is not yet shared"})
 	c.guardedBy(rule, "PauseController", msgF, lock, map[string]string{"(*server.PauseController).UnmarshalJSON": "decode target is not yet shared"})
+	// the snapshot's components are found by type, whether it is returned as a tuple or as one struct value
+	iState, iMsg, iCh, iTm, asStruct := gwsComponents(c, gws)
+	if iState < 0 || iMsg < 0 || iCh < 0 || iTm < 0 {
+		c.undecided(rule, "getWaitState/shape", gws.Pos(), "the result does not carry exactly one state, one message, one release channel and one timer channel")
+		return
+	}
+	retComp := func(ret *ssa.Return, i int) ssa.Value {
+		if !asStruct {
+			return retVal(ret, i)
+		}
+		if u, ok := retVal(ret, 0).(*ssa.UnOp); ok && u.Op == token.MUL {
+			if a, ok := u.X.(*ssa.Alloc); ok {
+				return localStructField(&ssa.FieldAddr{X: a, Field: i}, 0)
+			}
+		}
+		return nil
+	}
 	okPaused := false
 	for _, ret := range normalReturns(gws) {
-		if k, ok := constInt(retVal(ret, 0)); ok && k == paused {
+		if k, ok := constInt(retComp(ret, iState)); ok && k == paused {
 			isP := false
 			for _, f := range intFacts(ret, matchFieldLoad(stateF)) {
 				if f.op == token.EQL && f.k == paused {
 					isP = true
 				}
 			}
-			chOK := isLoadOfField(retVal(ret, 2), chF)
+			chOK := retComp(ret, iCh) != nil && isLoadOfField(stripConv(retComp(ret, iCh)), chF)
 			tmOK := false
-			if call, ok := retVal(ret, 3).(*ssa.Call); ok && calleeName(call.Common()) == "time.After" && isLoadOfField(call.Call.Args[0], failF) && li.holds(call, lock, modeR) {
+			if call, ok := retComp(ret, iTm).(*ssa.Call); ok && calleeName(call.Common()) == "time.After" && isLoadOfField(call.Call.Args[0], failF) && li.holds(call, lock, modeR) {
 				tmOK = true
 			}
 			okPaused = isP && chOK && tmOK
@@ -246,17 +263,15 @@ func r072(c *Ctx, rule string) {
 		if st.Dir != types.RecvOnly {
 			continue
 		}
-		if e, ok := stripConv(st.Chan).(*ssa.Extract); ok && e.Tuple == ssa.Value(g) {
-			if e.Index == 2 {
-				relArm = i
-			}
-			if e.Index == 3 {
-				tmArm = i
-			}
+		switch gwsCompOf(st.Chan, g) {
+		case iCh:
+			relArm = i
+		case iTm:
+			tmArm = i
 		}
 	}
 	c.ob(rule, "Wait/select-arms", sel.Pos(), sel.Blocking && len(sel.States) == 2 && relArm >= 0 && tmArm >= 0, true, "a held request must block on exactly {release channel, its own max-pause timer}")
-	stVal := resultOf(g, 0)
+	isSt := func(v ssa.Value) bool { return gwsCompOf(v, g) == iState }
 	for _, ret := range normalReturns(wait) {
 		act, ok := constInt(retVal(ret, 0))
 		if !ok {
@@ -264,7 +279,7 @@ func r072(c *Ctx, rule string) {
 			continue
 		}
 		var st []int64
-		for _, f := range intFacts(ret, sameAs(stVal)) {
+		for _, f := range intFacts(ret, isSt) {
 			if f.op == token.EQL {
 				st = append(st, f.k)
 			}
@@ -301,7 +316,7 @@ func r072(c *Ctx, rule string) {
 		case aStopped:
 			msg := retVal(ret, 1)
 			if has(stopped) && !armKnown {
-				good = msg == resultOf(g, 1)
+				good = gwsCompOf(msg, g) == iMsg
 			} else if armKnown && arm == relArm && rereadStopped {
 				call, ok := msg.(*ssa.Call)
 				good = ok && isCallTo(call.Common(), getMsg)
@@ -436,6 +451,79 @@ func r072(c *Ctx, rule string) {
 		}
 	}
 	c.ob(rule, "IsHealthCheckRequest/GET-and-exact-path", ihc.Pos(), sawGet && sawPath && okRet, true, "health-check requests are exactly GET requests whose path equals the configured health-check path")
+}
+
+// gwsComponents: the positions of the state, the stop message, the release channel and the timer channel in getWaitState's
+// result (a tuple, or a single struct value), by type; -1 for one that is absent or ambiguous.
+func gwsComponents(c *Ctx, gws *ssa.Function) (iState, iMsg, iCh, iTm int, asStruct bool) {
+	iState, iMsg, iCh, iTm = -1, -1, -1, -1
+	res := gws.Signature.Results()
+	var ts []types.Type
+	if res.Len() == 1 {
+		st, ok := res.At(0).Type().Underlying().(*types.Struct)
+		if !ok {
+			return
+		}
+		asStruct = true
+		for i := 0; i < st.NumFields(); i++ {
+			ts = append(ts, st.Field(i).Type())
+		}
+	} else {
+		for i := 0; i < res.Len(); i++ {
+			ts = append(ts, res.At(i).Type())
+		}
+	}
+	set := func(p *int, i int) {
+		if *p == -1 {
+			*p = i
+		} else {
+			*p = -2
+		}
+	}
+	for i, t := range ts {
+		if n, ok := t.(*types.Named); ok && n.Obj().Name() == "PauseState" {
+			set(&iState, i)
+		} else if b, ok := t.Underlying().(*types.Basic); ok && b.Kind() == types.String {
+			set(&iMsg, i)
+		} else if ch, ok := t.Underlying().(*types.Chan); ok {
+			if b, ok := ch.Elem().Underlying().(*types.Basic); ok && b.Kind() == types.Bool {
+				set(&iCh, i)
+			} else if n, ok := ch.Elem().(*types.Named); ok && n.Obj().Name() == "Time" {
+				set(&iTm, i)
+			}
+		}
+	}
+	return
+}
+
+// gwsCompOf: which component of the getWaitState call g the value v is (-1: none).
+func gwsCompOf(v ssa.Value, g *ssa.Call) int {
+	for d := 0; d < 4; d++ {
+		v = stripConv(v)
+		switch x := v.(type) {
+		case *ssa.Extract:
+			if x.Tuple == ssa.Value(g) {
+				return x.Index
+			}
+			return -1
+		case *ssa.Field:
+			if x.X == ssa.Value(g) {
+				return x.Field
+			}
+			return -1
+		case *ssa.UnOp:
+			fa, ok := x.X.(*ssa.FieldAddr)
+			if !ok || x.Op != token.MUL {
+				return -1
+			}
+			if v = localStructField(fa, 0); v == nil {
+				return -1
+			}
+		default:
+			return -1
+		}
+	}
+	return -1
 }
 
 // structCarries: v (a struct value or a load of a local struct) has a field initialised from val.
